@@ -1,7 +1,7 @@
 """
 Lane table: which monitors decide which property, in which tier, under which instrument.
 
-lane = {name, kind: native|miri|tsan|asan|script, pkg, bin, tiers, scale, args, timeout, miri_seeds, features}
+lane = {name, kind: native|miri|tsan|asan|memcheck|script, pkg, bin, tiers, scale, args, timeout, miri_seeds, features}
 The first lane of a property is its primary lane (its result is required).
 """
 
@@ -24,6 +24,14 @@ def miri(bin, seeds_q=0, seeds_t=8, name="miri", scale=100, **kw):
 
 def san(kind, bin, name=None, scale=20, tiers=T, **kw):
     d = {"name": name or kind, "kind": kind, "pkg": "mon", "bin": bin, "tiers": tiers, "scale": scale}
+    d.update(kw)
+    return d
+
+
+def memcheck(bin, pkg="monx", name="memcheck", scale=1, tiers=T, **kw):
+    """valgrind memcheck over the native build (uninitialised-value use, invalid accesses) - for the monitors whose
+    code paths Miri cannot interpret (tokio / hyper / sockets / real files)."""
+    d = {"name": name, "kind": "memcheck", "pkg": pkg, "bin": bin, "tiers": tiers, "scale": scale}
     d.update(kw)
     return d
 
